@@ -348,7 +348,7 @@ class FittedParamExtractor(_PanelToTabularTransformer):
         def _get_instance(X, key):
             # assuming univariate data
             if isinstance(X, pd.DataFrame):
-                return X.iloc[key, 0]
+                return pd.Series(X.iloc[key, 0])
             else:
                 return pd.Series(X[key, 0])
 
